@@ -870,3 +870,33 @@ def check_dedup_metric(ctx, rule="METRIC"):
     ctx.decide(ok, rule, CART + ":dedup", (fi, c), "duplicates are removed under the grid's periodic metric",
                f"`{U(c)}` measures the overlap of the candidates without the grid: spheres that overlap only across a periodic boundary are both kept (or, for translated patterns, a different number "
                "of droplets survives), so the count depends on where the boundary lies")
+
+
+# -------------------------------------------------------------------------------------------------- round 11
+def check_origin_cluster_kept(ctx, rule="EXHAUST"):
+    """on spherically symmetric grids the cluster that contains the origin *is* the droplet: inside the loop over the clusters its
+    construction is guarded by nothing but "starts at the first radial cell" — a further condition (it reaches the outermost cell,
+    it is too large …) or a `continue` in front of it returns an empty emulsion for a droplet that the image resolves"""
+    m = ctx.model
+    q = "droplets.image_analysis._locate_droplets_in_mask_spherical"
+    if not m.has_func(q):
+        return 0
+    fi = m.func(q)
+    fv = view(m, fi)
+    si = stmt_index(fv)
+    ctor = [c for c in fv.calls() if (fv.callee(c) or U(c.func)).split(".")[-1] in ("SphericalDroplet", "from_volume") and si.enclosing(c, (ast.For,)) is not None]
+    if not ctor:
+        ctx.undecided(rule, q + ":origin-cluster", fi, "construction of the origin droplet inside the cluster loop not found")
+        return 0
+    c = ctor[0]
+    loop = si.enclosing(c, (ast.For,))[0]
+    inner = [(t, p) for t, p in si.effective_guards(c) if any(y is t for y in ast.walk(loop))]
+    start0 = [(t, p) for t, p in inner if ".start" in U(t) and U(t).replace(" ", "").endswith("==0") and p]
+    extra = [(t, p) for t, p in inner if (t, p) not in start0]
+    skips = [x for x in ast.walk(loop) if isinstance(x, (ast.Continue, ast.Break))]
+    bad = extra[0][0] if extra else (skips[0] if skips else None)
+    ctx.decide(bool(start0) and not extra and not skips, rule, q + ":origin-cluster", (fi, bad) if bad is not None else (fi, c),
+               "the cluster starting at the first radial cell becomes the droplet, whatever else holds for it",
+               f"the origin cluster is turned into a droplet only under a further condition (`{U(bad)[:60] if bad is not None else ''}`): a centred droplet that the image resolves "
+               "(e.g. one whose radius comes within half a cell of the grid radius) yields an empty emulsion")
+    return 1
